@@ -57,7 +57,7 @@ def chunks(v, n=100):
 
 def func_body(src, name):
     """text between the braces of `static void <name> (...) {` ... `\n}`"""
-    m = re.search(r"\nstatic void " + name + r"\s*\([^)]*\)\s*\{\n(.*?)\n\}\n", src, flags=re.S)
+    m = re.search(r"\nstatic void " + name + r"\s*\([^)]*\)\s*\{[ \t]*\n(.*?)\n\}[ \t]*\n", strip_comments(src), flags=re.S)
     return m.group(1) if m else None
 
 
